@@ -395,8 +395,8 @@ func (cl *Cluster) wire(st *Stack) error {
 	// monitors are about
 	eventloop.Register(st.EL, func(c hotstuff.CommitEvent) { st.Commits = append(st.Commits, c.Block) }, eventloop.UnsafeRunInAddEvent())
 	eventloop.Register(st.EL, func(e hotstuff.ViewChangeEvent) { st.ViewChanges = append(st.ViewChanges, e) }, eventloop.UnsafeRunInAddEvent())
-	eventloop.Register(st.EL, func(e clientpb.ExecuteEvent) { st.Execs = append(st.Execs, e.Batch) })
-	eventloop.Register(st.EL, func(e clientpb.AbortEvent) { st.Aborts = append(st.Aborts, e.Batch) })
+	eventloop.Register(st.EL, func(e clientpb.ExecuteEvent) { st.Execs = append(st.Execs, e.Batch) }, eventloop.UnsafeRunInAddEvent())
+	eventloop.Register(st.EL, func(e clientpb.AbortEvent) { st.Aborts = append(st.Aborts, e.Batch) }, eventloop.UnsafeRunInAddEvent())
 	return nil
 }
 
